@@ -5,6 +5,7 @@ import KoordVerif.Proofs.C12ExtStatic
 import KoordVerif.Proofs.C12ExtEnv
 import KoordVerif.Proofs.C12ExtParse
 import KoordVerif.Proofs.C12ExtKind
+import KoordVerif.Proofs.C12ExtRule
 /-
 C12 — property theorems (DESIGN.md §4 C12, Appendix A.5).
 
@@ -1394,5 +1395,66 @@ theorem same_level_parent_child_counterexample :
 
 /-- non-vacuity of leveled_batch_valid_needs_mergeable on the ratio shrink. -/
 example : AllMergeable (kdLevels true) := by decide
+
+/-! ### the targets the callers of LeveledUpdateBatch ask for (Model/C12Rule.lean) -/
+
+theorem limLe_of_nonneg {a b : Int} (ha : 0 ≤ a) (hab : a ≤ b) : limLe a b := by
+  unfold limLe limKey
+  split <;> split <;> omega
+
+/-- **rule_targets_valid**: the cfs quotas the batchresource / cpunormalization callbacks ask for are hierarchy-valid
+    - every container's quota is within its pod's (-1 = unlimited on top) - for ANY scaling function that is
+    monotone, positive and not increasing on positive quotas (`ScaleOK`; the identity and exact ceiling division by a
+    ratio ≥ 1 are instances, the float64 `ceil(q / ratio)` is checked on every generated input by the harnesses),
+    any number of containers, limits present / 0 / absent. -/
+theorem rule_targets_valid {scale : Int → Int} (h : ScaleOK scale) (lims : List Int)
+    (hb : ∀ l ∈ lims, l * 100 ≤ 9223372036854775807) :
+    ∀ l ∈ lims, limLe (ctrQuota scale l) (podQuota scale lims) := by
+  intro l hl
+  have hc : ctrQuota scale l = -1 ∨ (0 < ctrQuota scale l ∧ ctrQuota scale l ≤ 9223372036854775807) := by
+    have hbl := hb l hl
+    by_cases hl0 : l > 0
+    · have hq : 0 < baseQuota l ∧ baseQuota l ≤ 9223372036854775807 := by
+        unfold baseQuota; simp only
+        have : 100 ≤ l * 100000 / 1000 := by omega
+        have : l * 100000 / 1000 ≤ l * 100 := by omega
+        repeat' split
+        all_goals omega
+      right
+      simp only [ctrQuota, hl0, if_true, scaledQuota, hq.1]
+      exact ⟨h.pos _ hq.1, Int.le_trans (h.le _ hq.1) hq.2⟩
+    · left
+      have hb0 : baseQuota 0 = -1 := by decide
+      simp [ctrQuota, hl0, hb0, scaledQuota]
+  rcases rule_ctr_le_pod h lims l hl with hp | ⟨h1, h2, _⟩
+  · rw [hp]; unfold limLe limKey
+    rcases hc with hc | hc
+    · rw [hc]; decide
+    · split <;> simp <;> omega
+  · exact limLe_of_nonneg (Int.le_of_lt h1) h2
+
+/-- **cgr_targets_valid**: the memory.min (and un-raised memory.low) values cgreconcile asks for are hierarchy-valid:
+    container ≤ pod (request * percent / 100 against the sum of the requests), pod ≤ its qos sum ≤ the kubepods total. -/
+theorem cgr_targets_valid (pct : Int) (hp : 0 ≤ pct) (reqs : List Int) (hr : ∀ r ∈ reqs, 0 ≤ r)
+    (pods : List Int) (hv : ∀ v ∈ pods, 0 ≤ v) (others : Int) (ho : 0 ≤ others) :
+    (∀ r ∈ reqs, limLe (prot r pct) (prot reqs.sum pct)) ∧
+    (∀ v ∈ pods, limLe v pods.sum) ∧ limLe pods.sum (pods.sum + others) := by
+  refine ⟨fun r hrm => ?_, fun v hvm => ?_, ?_⟩
+  · exact limLe_of_nonneg (prot_nonneg pct r hp (hr r hrm))
+      (prot_mono pct r reqs.sum hp (mem_le_sum_of_nonneg reqs hr r hrm))
+  · exact limLe_of_nonneg (hv v hvm) (mem_le_sum_of_nonneg pods hv v hvm)
+  · exact limLe_of_nonneg (sum_nonneg_of_nonneg pods hv) (by omega)
+
+/-- **cgr_low_raised_target_invalid_counterexample**: the memory.low TARGET of cgreconcile is not always valid:
+    pod and container memory.low are raised to memory.min when smaller, the qos-level sum is not - minLimitPercent 100,
+    lowLimitPercent 50, one burstable pod requesting 1 GiB: pod memory.low = 1 GiB under burstable memory.low = 512 MiB.
+    Such targets are outside the property's quantifier (harness tag cgr:memory.low:target-invalid). -/
+theorem cgr_low_raised_target_invalid_counterexample :
+    ¬ limLe (lowImproved (prot 1073741824 100) (prot 1073741824 50)) ([prot 1073741824 50].sum) := by
+  unfold limLe; decide
+
+/-- non-vacuity: ratio 1.5 = 3/2 on the pod of the counterexample (limits 2000m = 1500m + 500m). -/
+example : podQuota (fun q => (q * 2 + 3 - 1) / 3) [1500, 500] = 133334 ∧ ctrQuota (fun q => (q * 2 + 3 - 1) / 3) 1500 = 100000 := by
+  decide
 
 end KoordVerif.C12
